@@ -77,3 +77,12 @@ Print Assumptions C04_ieee_special.
 Theorem C04_carrier_faithful : forall x : b64, of_bits64 (to_bits64 x) = x.
 Proof. exact bits_roundtrip. Qed.
 Print Assumptions C04_carrier_faithful.
+
+(* MIL-STD-1750A 32-bit floats: mantissa (bits 31..8, two's complement) times 2^(exponent - 23) (exponent: bits 7..0, two's
+   complement), exactly: every such number is a binary64 number *)
+From SPP Require Import Proofs.MilRealP.
+Theorem C04_mil1750a_value : forall bits,
+  exists x : b64, dec_mil1750a bits = to_bits64 x /\ is_finite x = true /\
+                  B2R x = F2R (Float radix2 (mil_man bits) (mil_exp bits - 23)).
+Proof. exact mil1750a_real. Qed.
+Print Assumptions C04_mil1750a_value.
